@@ -412,8 +412,8 @@ def report_difference(run, stream, job, o, plans, jobs, nfail):
                             for p in (pa, pb)])
     replay.update(differs_in=diff, explanation=explain(ra, rb), failing_designs=nfail,
                   observed=[{f: ra[f] for f in FORMATS}, {f: rb[f] for f in FORMATS}],
-                  reproducer=f"for S in {plans[pa][0]} {plans[pb][0]}: PYTHONHASHSEED=$S ./check C12 --replay <this file> "
-                             "(builds the design in two fresh interpreters and compares the digests)")
+                  reproducer=f"./check C12 --replay <this file>  (rebuilds the design in two fresh interpreters with "
+                             f"PYTHONHASHSEED={plans[pa][0]} and {plans[pb][0]} and the recorded prework, and compares the digests)")
     run.violation(f"C12:{job['kind']}:" + canon(job),
                   f"{'/'.join(diff)} differ between PYTHONHASHSEED={plans[pa][0]} and {plans[pb][0]}: {explain(ra, rb)}", replay)
 
